@@ -199,6 +199,28 @@ func (c *c14Case) dump(out []int64) []int64 {
 	return out
 }
 
+// Equal on a slice of float64 compared WITH ITSELF, NaN included.  For the model the two arguments are different int slices:
+// they agree everywhere except that the first has 3 where the second has 7; both values stand for NaN.  So the model
+// says "equal" exactly when there is no such position, which is what element-wise == on floats says about a slice and
+// itself (NaN != NaN).  An implementation that answers true because both arguments start at the same address differs.
+func c14NaNAlias(a, b []int) ([]float64, bool) {
+	if len(a) != len(b) || len(a) == 0 {
+		return nil, false
+	}
+	fl := make([]float64, len(a))
+	for i := range a {
+		switch {
+		case a[i] == 3 && b[i] == 7:
+			fl[i] = math.NaN()
+		case a[i] == b[i] && a[i] != 3 && a[i] != 7:
+			fl[i] = float64(a[i])
+		default:
+			return nil, false
+		}
+	}
+	return fl, true
+}
+
 func c14Impl(in []int64) []int64 {
 	if len(in) > 0 && in[0] == fFlex {
 		return c14FlexImpl(in, nil)
@@ -250,6 +272,9 @@ func c14Impl(in []int64) []int64 {
 	case fFilterIP:
 		return one(slicez.FilterInPlace(c.slice(0), pred))
 	case fEqual:
+		if fl, ok := c14NaNAlias(c.slice(0), c.slice(1)); ok {
+			return scalars(B(slicez.Equal(fl, fl)))
+		}
 		return scalars(B(slicez.Equal(c.slice(0), c.slice(1))))
 	case fIndex:
 		return scalars(int64(slicez.Index(c.slice(0), c.arg(0))))
@@ -793,7 +818,22 @@ func c14Gen(c *Ctx) {
 		b.sl = [][4]int{s}
 		switch f {
 		case fEqual:
-			switch r.Intn(4) {
+			switch r.Intn(5) {
+			case 4: // a float slice against itself, with NaNs (see c14NaNAlias): 3 in the first, 7 in the second
+				if s[0] != 0 && s[2] > 0 {
+					v0 := b.arrs[s[0]-1][s[1] : s[1]+s[2]]
+					vals := make([]int64, len(v0))
+					for j, v := range v0 {
+						vals[j] = v
+						if v == 3 {
+							vals[j] = 7
+						}
+					}
+					b.sl = append(b.sl, [4]int{b.arr(vals), 0, s[2], len(vals)})
+					t.C.Count("equal", "float slice against itself")
+				} else {
+					b.sl = append(b.sl, s)
+				}
 			case 0:
 				b.sl = append(b.sl, s)
 			case 1: // same contents elsewhere, more capacity
